@@ -112,7 +112,7 @@ def _prune_cache(keep):
     except FileNotFoundError:
         return
     ents.sort(key=lambda e: os.path.getmtime(os.path.join(CACHE, e)), reverse=True)
-    for e in ents[1:]:
+    for e in ents[int(os.environ.get("VERIF_CACHE_KEEP", "12")):]:
         shutil.rmtree(os.path.join(CACHE, e), ignore_errors=True)
 
 
